@@ -121,6 +121,140 @@ def probe_traversal(seed, limit):
     return None
 
 
+def probe_members(seed, limit):
+    """C13 / C01 at member level: member names with (single / double) encoded separators and dot
+    segments stay inside their collection directory; the collection's own metadata file and git
+    control directory are not addressable as members."""
+    import hashlib
+
+    def snapshot(root):
+        out = {}
+        for d, dirs, files in os.walk(root):
+            for f in files:
+                p = os.path.join(d, f)
+                try:
+                    with open(p, "rb") as fh:
+                        out[os.path.relpath(p, root)] = hashlib.md5(fh.read()).hexdigest()
+                except OSError:
+                    pass
+        return out
+
+    names = ["..%2F..%2Foutside.ics", "..%252F..%252Foutside.ics", "%2e%2e%2f%2e%2e%2foutside.ics", "..%2F..%2F..%2F..%2Foutside%2Fx.ics",
+             "..%252F..%252F..%252F..%252Foutside%252Fx.ics", "..%5c..%5coutside.ics", "a%2Fb.ics", "%2Fetc%2Fx.ics"]
+    n = 0
+    for nm in names:
+        for method in ("PUT", "DELETE", "GET"):
+            n += 1
+            if n > limit:
+                return None
+            s = Server()
+            try:
+                os.mkdir(os.path.join(s.top, "outside"))
+                with open(os.path.join(s.top, "outside", "precious.ics"), "wb") as f:
+                    f.write(b"precious")
+                coll_dir = os.path.join(s.root, "user", "calendars", "calendar")
+                other = {k: v for k, v in snapshot(s.top).items() if not k.startswith(os.path.relpath(coll_dir, s.top) + os.sep)}
+                path = CAL + nm
+                r = s.request(method, path, {"Content-Type": "text/calendar"} if method == "PUT" else {}, ics("u-esc") if method == "PUT" else b"")
+                now = {k: v for k, v in snapshot(s.top).items() if not k.startswith(os.path.relpath(coll_dir, s.top) + os.sep)}
+                if now != other:
+                    diff = sorted(set(now.items()) ^ set(other.items()))[:4]
+                    return {"input": {"requests": [[method, path, {}, ""]]},
+                            "expected": "nothing outside the addressed collection's directory changes",
+                            "observed": f"{method} {path} -> {r['status']}; changed outside the collection: {diff}"}
+            finally:
+                s.close()
+    # reserved names
+    for nm in (".xandikos", ".git"):
+        s = Server()
+        try:
+            s.request("PROPPATCH", CAL, {"Content-Type": "text/xml"},
+                      b"<D:propertyupdate xmlns:D='DAV:'><D:set><D:prop><D:displayname>Kept</D:displayname></D:prop></D:set></D:propertyupdate>")
+            s.request("PUT", CAL + "m.ics", {"Content-Type": "text/calendar"}, ics("u-m"))
+            before = s.request("PROPFIND", CAL, {"Depth": "1"})
+            outs = []
+            for method in ("GET", "PUT", "DELETE"):
+                r = s.request(method, CAL + nm, {"Content-Type": "text/calendar"} if method == "PUT" else {}, ics("u-r") if method == "PUT" else b"")
+                outs.append((method, r["status"]))
+                if method == "GET" and r["status"] == 200:
+                    return {"input": {"requests": [["GET", CAL + nm, {}, ""]]}, "expected": f"{nm} is not a member: 404",
+                            "observed": f"GET {CAL + nm} -> 200 ({r['body'][:60]!r})"}
+                if method in ("PUT", "DELETE") and r["status"] in (200, 201, 204):
+                    return {"input": {"requests": [[method, CAL + nm, {}, ""]]}, "expected": f"{nm} is not a member: refused",
+                            "observed": f"{method} {CAL + nm} -> {r['status']}"}
+            after = s.request("PROPFIND", CAL, {"Depth": "1"})
+            g = s.request("GET", CAL + "m.ics")
+            if after["status"] != 207 or g["status"] != 200 or b"Kept" not in after["body"]:
+                return {"input": {"requests": [[m_, CAL + nm, {}, ""] for m_, _ in outs]},
+                        "expected": "the collection, its properties and its members are untouched",
+                        "observed": f"{outs}; PROPFIND -> {after['status']}, GET m.ics -> {g['status']}, displayname kept: {b'Kept' in after['body']}"}
+        finally:
+            s.close()
+    return None
+
+
+def probe_multiget_independence(seed, limit):
+    """C17: the answer for one href does not depend on the other hrefs of the request - checked with
+    hrefs in sibling collections whose names share a prefix, nested and missing paths; C08: a
+    collection deleted and created again at the same URL does not inherit the old tags."""
+    from xml.etree import ElementTree as ET
+
+    s = Server()
+    try:
+        home = "/user/calendars/"
+        cal2 = home + "calendar2/"
+        s.request("MKCALENDAR", cal2)
+        s.request("PUT", CAL + "a.ics", {"Content-Type": "text/calendar"}, ics("u-a", 0))
+        s.request("PUT", CAL + "b.ics", {"Content-Type": "text/calendar"}, ics("u-b", 0))
+        s.request("PUT", cal2 + "a.ics", {"Content-Type": "text/calendar"}, ics("u-a2", 1))
+        hrefs = [CAL + "a.ics", cal2 + "a.ics", cal2 + "b.ics", CAL + "2024/b.ics", CAL + "b.ics", home + "calendar/../calendar2/a.ics"]
+
+        def multiget(hs):
+            body = ("<C:calendar-multiget xmlns:D='DAV:' xmlns:C='urn:ietf:params:xml:ns:caldav'><D:prop><D:getetag/></D:prop>"
+                    + "".join(f"<D:href>{h}</D:href>" for h in hs) + "</C:calendar-multiget>").encode()
+            r = s.request("REPORT", CAL, {"Content-Type": "text/xml", "Depth": "1"}, body)
+            if r["status"] != 207:
+                return None
+            out = {}
+            for resp in ET.fromstring(r["body"]).findall("{DAV:}response"):
+                h = resp.find("{DAV:}href").text
+                st = resp.find("{DAV:}status")
+                et = resp.find(".//{DAV:}getetag")
+                out.setdefault(h, []).append((st.text if st is not None else "propstat", et.text if et is not None else None))
+            return out
+
+        together = multiget(hrefs)
+        if together is None:
+            return {"input": {"requests": [["REPORT", CAL, {}, "multiget " + " ".join(hrefs)]]}, "expected": "207", "observed": "not 207"}
+        for h in hrefs[:limit]:
+            alone = multiget([h])
+            if alone is None or together.get(h) != alone.get(h) or len(together.get(h) or []) != 1:
+                return {"input": {"requests": [["REPORT", CAL, {}, "multiget " + " ".join(hrefs)]]},
+                        "expected": f"{h} answered once, as when it is requested alone: {alone and alone.get(h)}",
+                        "observed": f"{together.get(h)}"}
+        # delete + re-create at the same URL
+        def tags(url):
+            r = s.request("PROPFIND", url, {"Depth": "0", "Content-Type": "text/xml"},
+                          b"<D:propfind xmlns:D='DAV:' xmlns:CS='http://calendarserver.org/ns/'><D:prop><CS:getctag/><D:sync-token/><D:getetag/></D:prop></D:propfind>")
+            if r["status"] != 207:
+                return None
+            el = ET.fromstring(r["body"])
+            return tuple((x.text or "") for x in el.iter() if x.tag in ("{http://calendarserver.org/ns/}getctag", "{DAV:}sync-token", "{DAV:}getetag"))
+        full = tags(cal2)
+        d = s.request("DELETE", cal2)
+        m = s.request("MKCALENDAR", cal2)
+        fresh = tags(cal2)
+        s.request("MKCALENDAR", home + "calendar3/")
+        empty = tags(home + "calendar3/")
+        if d["status"] in (200, 204) and m["status"] == 201 and full and fresh and fresh == full:
+            return {"input": {"requests": [["DELETE", cal2, {}, ""], ["MKCALENDAR", cal2, {}, ""]]},
+                    "expected": "the re-created, empty calendar does not report the tags of the deleted one that had members",
+                    "observed": f"tags before the delete {full}, after re-creation {fresh} (a never-used empty calendar: {empty})"}
+    finally:
+        s.close()
+    return None
+
+
 def probe_refused_mkcol(seed, limit):
     """C01: a MKCOL / MKCALENDAR that is answered with an error creates nothing."""
     cases = [
@@ -412,6 +546,8 @@ GROUPS = {
     "traversal": probe_traversal,
     "refused_mkcol": probe_refused_mkcol,
     "listing": probe_listing,
+    "members": probe_members,
+    "independence": probe_multiget_independence,
     "model": probe_model,
 }
 
@@ -420,12 +556,14 @@ def groups_for(fn):
     if fn and ("Mkcol" in fn or "Mkcalendar" in fn or "create_collection" in fn):
         return ["refused_mkcol", "traversal", "model"]
     if fn and ("_map_to_file_path" in fn or "get_resource" in fn or "CollectionSetResource" in fn):
-        return ["traversal", "model"]
+        return ["traversal", "members", "model"]
+    if fn and ("create_member" in fn or "get_member" in fn or "delete_member" in fn or "import_one" in fn):
+        return ["members", "model", "listing"]
     if fn and ("subdirectories" in fn or "subcollections" in fn or fn.endswith(".members") or "traverse_resource" in fn):
         return ["listing", "model"]
     if fn and "PostMethod" in fn:
         return ["post_location", "model"]
-    return ["model", "traversal", "refused_mkcol", "post_location", "listing"]
+    return ["model", "traversal", "refused_mkcol", "post_location", "listing", "members", "independence"]
 
 
 class Http:
@@ -434,7 +572,7 @@ class Http:
         quick = req.get("tier", "quick") == "quick"
         tried = {}
         for g in groups_for(req.get("function")):
-            limit = {"traversal": 60 if quick else 600, "refused_mkcol": 11, "listing": 6, "model": 40 if quick else 400, "post_location": 4}[g]
+            limit = {"traversal": 60 if quick else 600, "refused_mkcol": 11, "listing": 6, "members": 24, "independence": 6, "model": 40 if quick else 400, "post_location": 4}[g]
             bad = GROUPS[g](seed, limit)
             tried[g] = limit
             if bad:
